@@ -94,6 +94,7 @@ func payload(r *Rng, n int) []byte {
 func c11(args []string) int {
 	run := NewRun("C11", args)
 	log.DefaultLogger.SetLogLevel(log.FATAL)
+	jit = startJitter()
 	run.Sum.Rule = "codec: head values and buffer lengths over the boundaries 0,1,7,8,9,255,256,65535,65536,2^31,2^32-1 (heads) / 0,1,2^16-1,2^16,2^16+1,2^20,2^20+1,2^24,2^31-1,2^31,2^32-1 in BOTH head fields of the read path and the write path (second field = connection id); buffers up to 1 MiB+1 (quick) / 3 MiB (thorough), random and patterned contents, extra bytes following on the socket; non-trivial = non-empty data or tls; distinct by (lengths, first bytes). listener: histories of 3-6 operations from {Start, Start(restart), Shutdown, Shutdown while Upgrading, Close} on a real TCP listener, a connect probe after every step; non-trivial = history contains a Shutdown; distinct by history. drain: in-process MOSN, bolt request whose upstream delay sets the phase, GracefulStopListener at offsets sweeping receiving / waiting-for-upstream / reply phases; distinct by (phase durations, offset)."
 
 	dir, err := os.MkdirTemp("", "vh-c11-")
@@ -142,25 +143,43 @@ type probeCB struct {
 	accepted  map[string]bool // remote address of accepted connections
 	shutdowns int
 	addr      string
+	scale     int
 	drainCode int // result of the connect made inside the last OnShutdown: 0 refused, 1 established but not accepted, 2 accepted, 9 none
 }
 
 // probe connects to the listener and reports whether the connection was refused (0), established but not accepted by
 // this process (1: it sits in the kernel backlog), or accepted (2).
 func (p *probeCB) probe() int {
-	c, err := dialLocal(p.addr, 200*time.Millisecond)
+	c, err := dialLocal(p.addr, time.Second)
 	if err != nil {
 		return 0
 	}
 	defer c.Close()
 	me := c.LocalAddr().String()
-	for w := 0; w < 12; w++ {
+	sc := p.scale
+	if sc < 1 {
+		sc = 1
+	}
+	// an accepting listener calls OnAccept within a millisecond or so; wait 60 ms (x scale), longer if the machine stutters
+	t0 := time.Now()
+	for w := 0; w < 12*sc; w++ {
 		time.Sleep(5 * time.Millisecond)
 		p.mu.Lock()
 		acc := p.accepted[me]
 		p.mu.Unlock()
 		if acc {
 			return 2
+		}
+	}
+	if j := jit.max(t0, time.Now()); j > 5 {
+		for w := 0; w < 4*j/5+1; w++ {
+			time.Sleep(5 * time.Millisecond)
+			p.mu.Lock()
+			acc := p.accepted[me]
+			p.mu.Unlock()
+			if acc {
+				return 2
+			}
 		}
 	}
 	return 1
@@ -237,6 +256,50 @@ func freePort() int {
 	panic("no free port")
 }
 
+// runListenerHistory drives one fresh real listener through ops; scale stretches every wait (re-runs use larger scales).
+func runListenerHistory(name string, bind bool, ops []int, scale int) (tr []lisObs, cb *probeCB) {
+	port := freePort()
+	addr := &net.TCPAddr{IP: net.ParseIP("127.0.0.1"), Port: port}
+	lc := &v2.Listener{ListenerConfig: v2.ListenerConfig{Name: name, BindToPort: bind}, Addr: addr}
+	l := network.NewListener(lc)
+	cb = &probeCB{accepted: map[string]bool{}, addr: addr.String(), drainCode: 9, scale: scale}
+	l.SetListenerCallbacks(cb)
+	settle := func() {
+		// let the operation take effect: the base wait, stretched by the scale and by the jitter seen just now
+		t0 := time.Now()
+		time.Sleep(time.Duration(25*scale) * time.Millisecond)
+		if j := jit.max(t0, time.Now()); j > 5 {
+			time.Sleep(time.Duration(4*j) * time.Millisecond)
+		}
+	}
+	for _, o := range ops {
+		switch o {
+		case 0:
+			go l.Start(nil, false)
+		case 1:
+			go l.Start(nil, true)
+		case 2:
+			stagemanager.SetState(stagemanager.Running)
+			l.Shutdown(nil)
+		case 3:
+			stagemanager.SetState(stagemanager.Upgrading)
+			l.Shutdown(nil)
+			stagemanager.SetState(stagemanager.Running)
+		case 4:
+			l.Close(nil)
+		}
+		settle()
+		acc := cb.probe() == 2
+		cb.mu.Lock()
+		dr, dcode := cb.shutdowns, cb.drainCode
+		cb.drainCode = 9
+		cb.mu.Unlock()
+		tr = append(tr, lisObs{acc, dr, dcode})
+	}
+	l.Close(nil)
+	return tr, cb
+}
+
 func c11Listener(run *Run) int {
 	r := run.R
 	sh := run.NewShard(c11Header, "lis_case", "lis_mismatches")
@@ -244,67 +307,58 @@ func c11Listener(run *Run) int {
 	nseq := run.N(14, 120)
 	for s := 0; s < nseq; s++ {
 		bind := !r.Pct(10)
-		port := freePort()
-		addr := &net.TCPAddr{IP: net.ParseIP("127.0.0.1"), Port: port}
-		lc := &v2.Listener{ListenerConfig: v2.ListenerConfig{Name: fmt.Sprintf("vh-lis-%d", s), BindToPort: bind}, Addr: addr}
-		l := network.NewListener(lc)
-		cb := &probeCB{accepted: map[string]bool{}, addr: addr.String(), drainCode: 9}
-		l.SetListenerCallbacks(cb)
 		n := 3 + r.Intn(4)
-		var ops []int
 		// every history starts the listener first: Start on a listener that was stop-accepted before it ever listened
 		// dereferences the nil raw listener (listener.go Start, metrics.AddListenerAddr) - a corner outside this property
-		ops = append(ops, 0)
+		ops := []int{0}
 		for len(ops) < n {
 			ops = append(ops, r.Intn(len(opNames)))
 		}
-		var tr []string
-		var hist []string
-		afterStop, afterStopAccept := false, false
-		hasShutdown := false
-		for _, o := range ops {
-			switch o {
-			case 0:
-				go l.Start(nil, false)
-				afterStopAccept = false
-			case 1:
-				go l.Start(nil, true)
-				afterStop, afterStopAccept = false, false
-			case 2:
-				stagemanager.SetState(stagemanager.Running)
-				l.Shutdown(nil)
-				afterStop, hasShutdown = true, true
-			case 3:
-				stagemanager.SetState(stagemanager.Upgrading)
-				l.Shutdown(nil)
-				stagemanager.SetState(stagemanager.Running)
-				afterStopAccept, hasShutdown = true, true
-			case 4:
-				l.Close(nil)
-			}
-			time.Sleep(25 * time.Millisecond)
-			// probe
-			acc := cb.probe() == 2
-			cb.mu.Lock()
-			dr, dcode := cb.shutdowns, cb.drainCode
-			cb.drainCode = 9
-			cb.mu.Unlock()
-			hist = append(hist, opNames[o])
-			tr = append(tr, fmt.Sprintf("(%s, %s, %d%%nat, %d%%N)", opNames[o], CoqBool(acc), dr, dcode))
-			rep := map[string]interface{}{"part": "listener", "bind_port": bind, "history": append([]string{}, hist...), "accepted": acc, "on_shutdown_calls": dr, "connect_inside_OnShutdown": dcode}
-			if bind && o == 2 && (dcode == 1 || dcode == 2) {
-				run.Fail("listener:connect-not-refused-while-draining", fmt.Sprintf("graceful stop: a connect made while OnShutdown (the drain) was running was %s instead of refused (history %v)", map[int]string{1: "established into the backlog of a socket nobody accepts from", 2: "accepted"}[dcode], hist), rep)
-			}
-			if bind && acc && afterStop {
-				run.Fail("listener:accepted-after-graceful-stop", fmt.Sprintf("a connection was accepted after Shutdown (history %v)", hist), rep)
-			}
-			if bind && acc && afterStopAccept {
-				run.Fail("listener:accepted-by-old-process-after-upgrade-stop", fmt.Sprintf("the old process accepted a connection after Shutdown while Upgrading (history %v)", hist), rep)
+		// run; a history whose observations disagree with the mirror of the model is re-run with longer waits (a slow
+		// accept loop looks like "not accepted"); only a history that disagrees every time goes to Coq as it is
+		var obs []lisObs
+		attempts := 0
+		for _, scale := range []int{1, 4, 12} {
+			attempts++
+			obs, _ = runListenerHistory(fmt.Sprintf("vh-lis-%d-%d", s, scale), bind, ops, scale)
+			if lisAgrees(bind, ops, obs) {
+				break
 			}
 		}
-		l.Close(nil)
-		run.Count(fmt.Sprintf("lis|%v|%v", bind, hist), hasShutdown, "listener-history", fmt.Sprintf("listener-ops=%d", len(ops)))
-		rep := map[string]interface{}{"part": "listener", "bind_port": bind, "history": hist, "trace": tr}
+		var tr, hist []string
+		afterStop, afterStopAccept, hasShutdown := false, false, false
+		for i, o := range ops {
+			switch o {
+			case 0:
+				afterStopAccept = false
+			case 1:
+				afterStop, afterStopAccept = false, false
+			case 2:
+				afterStop, hasShutdown = true, true
+			case 3:
+				afterStopAccept, hasShutdown = true, true
+			}
+			ob := obs[i]
+			hist = append(hist, opNames[o])
+			tr = append(tr, fmt.Sprintf("(%s, %s, %d%%nat, %d%%N)", opNames[o], CoqBool(ob.acc), ob.dr, ob.dcode))
+			rep := map[string]interface{}{"part": "listener", "bind_port": bind, "history": append([]string{}, hist...), "accepted": ob.acc, "on_shutdown_calls": ob.dr, "connect_inside_OnShutdown": ob.dcode, "attempts": attempts}
+			// "accepted" is a positive observation (OnAccept ran for this very connection): no timing can fake it
+			if bind && ob.acc && afterStop {
+				run.Fail("listener:accepted-after-graceful-stop", fmt.Sprintf("a connection was accepted after Shutdown (history %v)", hist), rep)
+			}
+			if bind && ob.acc && afterStopAccept {
+				run.Fail("listener:accepted-by-old-process-after-upgrade-stop", fmt.Sprintf("the old process accepted a connection after Shutdown while Upgrading (history %v)", hist), rep)
+			}
+			if bind && o == 2 && (ob.dcode == 1 || ob.dcode == 2) {
+				run.Fail("listener:connect-not-refused-while-draining", fmt.Sprintf("graceful stop: a connect made while OnShutdown (the drain) was running was %s instead of refused (history %v)", map[int]string{1: "established into the backlog of a socket nobody accepts from", 2: "accepted"}[ob.dcode], hist), rep)
+			}
+		}
+		kinds := []string{"listener-history", fmt.Sprintf("listener-ops=%d", len(ops))}
+		if attempts > 1 {
+			kinds = append(kinds, fmt.Sprintf("listener-history-rerun-%d-times", attempts-1))
+		}
+		run.Count(fmt.Sprintf("lis|%v|%v", bind, hist), hasShutdown, kinds...)
+		rep := map[string]interface{}{"part": "listener", "bind_port": bind, "history": hist, "trace": tr, "attempts": attempts}
 		sh.Add(fmt.Sprintf("(%s, %s)", CoqBool(bind), CoqList(tr)), rep)
 		if s < 2 {
 			run.Sample(rep)
